@@ -140,6 +140,21 @@ def code_constants(lo=8, hi=2 ** 19, subpath="", exclude=None):
 POW2_SIZES = (17, 33, 65, 129, 257, 513, 1025)
 
 
+def env_constants():
+    """thresholds nobody wrote down: sizes at which the *platform* changes behaviour and which a computed threshold is
+    likely to be derived from - CPython's small-int cache (256), the ranges of the narrow index dtypes (2^8, 2^15, 2^16),
+    NumPy's pairwise-summation block (128) and ufunc buffer (np.getbufsize()), the default buffer of the io module"""
+    import io
+    import os
+    if os.environ.get("TW_VERIF_NO_W7"):
+        return []
+    return sorted({128, 256, 2 ** 15, 2 ** 16, int(np.getbufsize()), int(io.DEFAULT_BUFFER_SIZE)})
+
+
+def _around(c):
+    return [c - 1, c, c + 1, c + 2, 2 * c - 1, 2 * c, 2 * c + 1, 2 * c + 2, 3 * c + 1]
+
+
 def sizes(dense_to, cap, around_constants=True, pow2=True, minimum=1, subpath="", exclude="datasets"):
     """size alphabet: every size minimum..dense_to; c-1, c, c+1, c+2, 2c, 2c+1, 3c+1 for every code constant c; 2^k+1;
     everything capped at `cap` (sizes above the cap are reported by sizes_dropped).  The dataset loader's constants (file
@@ -150,6 +165,8 @@ def sizes(dense_to, cap, around_constants=True, pow2=True, minimum=1, subpath=""
     if around_constants:
         for c in code_constants(subpath=subpath, exclude=exclude):
             s.update([c - 1, c, c + 1, c + 2, 2 * c, 2 * c + 1, 3 * c + 1])
+        for c in env_constants():
+            s.update(_around(c))
     return sorted(v for v in s if minimum <= v <= cap)
 
 
@@ -157,6 +174,8 @@ def sizes_dropped(dense_to, cap, subpath="", exclude="datasets"):
     s = set()
     for c in code_constants(subpath=subpath, exclude=exclude):
         s.update([c - 1, c, c + 1, c + 2, 2 * c, 2 * c + 1, 3 * c + 1])
+    for c in env_constants():
+        s.update(_around(c))
     return sorted(v for v in s if v > cap)
 
 
@@ -200,11 +219,16 @@ def interesting_indices(m, dense_to=48, subpath="", limit=40, exclude="datasets"
     if m <= dense_to:
         return list(range(m))
     s = {0, 1, 2, m - 3, m - 2, m - 1, m // 2}
-    cs = sorted(set([8, 16, 32, 64, 128, 256, 512, 1024]) | set(code_constants(subpath=subpath, exclude=exclude)))
+    cs = sorted(set([8, 16, 32, 64, 128, 256, 512, 1024]) | set(code_constants(subpath=subpath, exclude=exclude)) | set(env_constants()))
     for c in cs:
         for k in (1, 2, 3):
             for d in (-1, 0, 1):
                 s.add(k * c + d)
+    # the last full block of every block size, and the remainder behind it
+    for c in cs:
+        if c < m:
+            last = (m // c) * c
+            s.update([last - 1, last, last + 1, (last + m) // 2])
     out = sorted(i for i in s if 0 <= i < m)
     if len(out) > limit:
         # keep the ends and thin the middle evenly, deterministically
